@@ -315,13 +315,18 @@ def check(repo, tier):
                 run.oblige('D4', (entry, scen), False)
                 l2rules.raised_finding(run, 'C01', 'D4', repo, entry, scen, exc)
                 continue
-            used = {}
+            used, times = {}, {}
             for e in sc.events('index-drop'):
                 for l in e['legs']:
                     l = l.resolve()
                     if l.kind == 'M':
                         used[(l.key, l.var)] = e['index']
+                        times[(l.key, l.var)] = times.get((l.key, l.var), 0) + 1
             bad = []
+            # every core enters the entry exactly once (the first and the last core of an order-1 train are the same core)
+            twice = sorted(k for k, n_ in times.items() if n_ > 1)
+            if twice:
+                bad.append(f'the mode indices {twice} (site, row/column) are selected more than once: a core enters the product twice')
             for k in range(d):
                 if used.get((k, +1)) is not sc.idx[k]:
                     bad.append(f'row index of site {k} is taken from {used.get((k, +1))} instead of indices[{k}]')
@@ -425,6 +430,8 @@ def check(repo, tier):
             return sc.call(entry, Aop, x, b)
         for ch, sc, res, exc in run_scen(scen, body, typed=True):
             n_contr += l2rules.typing_obligations(run, 'C01', 'D6', repo, sc, scen, {TTM})
+            # no data-dependent cut of the carried factor unless it is relative to the largest singular value (an absolute guard makes the norm inhomogeneous)
+            l2rules.relative_cut_obligations(run, 'C01', 'D6', repo, sc, scen, {TTM})
             if exc is not None:
                 run.oblige('D6', (entry, scen), False)
                 l2rules.raised_finding(run, 'C01', 'D6', repo, entry, scen, exc)
